@@ -5,6 +5,7 @@ Import ListNotations.
 
 Arguments alloc_value : simpl never.
 Arguments new_graph : simpl never.
+Arguments apply_info_opt : simpl never.
 
 Lemma alloc_named_ok b ON sc : forall ks h cur h1 invs,
   st_ok b ON sc h cur -> alloc_named h ks = (h1, invs) ->
@@ -19,14 +20,23 @@ Proof.
     eapply step_trans; eauto. eapply alloc_step; eauto.
 Qed.
 
+Lemma apply_infos_named_same_core vis : forall ks vs h h', apply_infos_named h vis ks vs = Ok h' -> same_core h h'.
+Proof.
+  induction ks as [|k r IH]; intros [|v vs] h h' H; cbn in H; try (inversion H; subst; apply same_core_refl).
+  destruct (apply_info_opt h k vis v) as [h1|e] eqn:E; [|discriminate].
+  eapply same_core_trans; [eapply apply_info_opt_same_core; eauto | eauto].
+Qed.
+
 Lemma deser_function_inv f h h' x : Inv h -> deser_function f h = Ok (h', x) -> Inv h'.
 Proof.
   intros HI H. unfold deser_function in H.
   set (b := nv h) in *. set (ON := 0%N :: out_names (fp_nodes f)).
   assert (S0 : st_ok b ON [] h []).
   { constructor; auto; try solve [intros k v [] | intros k v y [] | unfold b; lia | intros t k v []]. }
-  destruct (alloc_named h (fp_ins f)) as [h1 invs] eqn:E1.
-  destruct (alloc_named_ok _ _ _ _ _ _ _ _ S0 E1) as (S1 & T1).
+  destruct (alloc_named h (fp_ins f)) as [h0 invs] eqn:E1.
+  destruct (alloc_named_ok _ _ _ _ _ _ _ _ S0 E1) as (S1' & T1).
+  destruct (apply_infos_named h0 (fp_vis f) (fp_ins f) invs) as [h1|e] eqn:E1'; [|discriminate].
+  pose proof (st_ok_same_core _ _ _ _ _ _ S1' (apply_infos_named_same_core _ _ _ _ _ E1')) as S1.
   destruct (declare_nodes h1 (table_of_names [] (fp_ins f) invs) (fp_vis f) (fp_nodes f)) as [[h2 tbl1]|e] eqn:E2; [|discriminate].
   destruct (declare_nodes_ok _ _ _ _ _ _ _ _ _ S1 E2) as (S2 & T2 & I2 & N2 & O2).
   destruct (deser_nodes (fp_nodes f) tbl1 [] (fp_vis f) h2) as [[[h3 tbl2] nids]|e] eqn:E3; [|discriminate].
